@@ -22,7 +22,7 @@ CHECKS = {
          "DESIGN.md §3 C12"),
  "C07": ("model-based differential testing: random graphs x monotone transfer tables x priority permutations (all n! for <= 6 nodes) x step bounds, naive Kleene iteration as reference (proptest tapes, shrinking)",
          "Random multigraphs (1..12 nodes) with a u8 bitset lattice and monotone edge transfers (gen/kill, conditional gen, blocking edges) implemented as a counting fixpoint::Context; every priority permutation for graphs up to 6 nodes, random permutations beyond, compute() and compute_with_max_steps(k); node_values must equal the Kleene least solution, no edge evaluated more than k times, stabilized => closed and least, not stabilized => non-empty worklist and a further compute() reaches the least solution; bottom-up/top-down worklists on generated CFGs must be permutations giving the same solution.",
-         "Trusted: the Kleene reference and the monotonicity of the generated transfer functions (by construction). Details: notes/C07.md.",
+         "Trusted: the Kleene reference and the monotonicity of the generated transfer functions (by construction). Each run has a second history step: values raised in place through node_values_mut(), compute() again, compared with the least solution containing the modified values. Details: notes/C07.md.",
          "DESIGN.md §3 C07"),
  "C24": ("generated call graphs, all ordered (source,target) pairs; reference = reflexive Warshall transitive closure (proptest tapes, shrinking)",
          "Programs of 1..9 functions with self/ring/back/parallel calls plus extern and indirect calls; for every ordered pair find_call_sequences_to_target must return exactly the call TIDs u->v with R*(source,u) and R*(v,target); the call graph must have one node per function and the exact multiset of direct-call edges. All pairs per program are enumerated.",
@@ -30,11 +30,11 @@ CHECKS = {
          "DESIGN.md §3 C24"),
  "C14": ("generated multi-function programs; reference = independent backward upward-exposed-use dataflow on the normalized IR; inclusion oracle demanded ⊆ reported (proptest tapes, shrinking); thorough tier adds a coverage-guided libFuzzer stage (cargo-fuzz) over the same tape decoder and oracle",
          "Generated projects read/write calling-convention parameter registers in every syntactic position (assignments, load/store addresses, store values, conditions, indirect jump/call/return targets, declared parameters of extern calls) behind partial overwrites, loops and calls; compute_function_signatures runs on the pipeline-normalized program; every register the oracle's dataflow finds read-before-written from the entry (paths cut at every call) must be a reported parameter. One-sided by design (the analysis may over-approximate).",
-         "Trusted: the demand dataflow in checks/c14.rs, deliberately an under-approximation of 'can be read' (bare-variable spills and arguments of non-returning calls are not demanded, as documented by the implementation).",
+         "Second oracle: concrete runs with tagged parameter registers (flows through spill slots of the own frame). Trusted: the demand dataflow in checks/c14.rs, deliberately an under-approximation of 'can be read' (bare-variable spills and arguments of non-returning calls are not demanded, as documented by the implementation).",
          "DESIGN.md §3 C14"),
  "C08": ("generated multi-function programs; reference = declarative CFG specification (least fixed point over (block, function) pairs + set comprehensions); node/edge multiset equality (proptest tapes, shrinking)",
          "Well-formed generated programs (shared blocks, all jump kinds, internal/extern/indirect/non-returning calls, empty functions, recursion) are passed to get_program_cfg; the node multiset and the edge multiset (labelled by term ids, edge kind and untaken-conditional annotation) must equal the harness' specification exactly; get_entry_nodes_of_subs must map exactly the non-empty functions to their entry nodes.",
-         "Trusted: the specification in checks/c08_spec.rs derived from the property statement and the module documentation of graph.rs. Details: notes/C08.md.",
+         "Trusted: the specification in checks/c08_spec.rs derived from the property statement and the module documentation of graph.rs; programs include the artificial sink function and calls to it. Details: notes/C08.md.",
          "DESIGN.md §3 C08"),
  "C09": ("generated raw extractor-shaped programs with injected irregularities; validity predicates over the output of normalize_basic + CFG equality with the C08 specification (proptest tapes, shrinking); thorough tier adds a coverage-guided libFuzzer stage (cargo-fuzz) over the same tape decoder and oracle",
          "Raw programs with dangling branch/call/return/hint targets, non-entry blocks shared between functions, duplicated block/def/jmp ids, calls to no_return symbols and to functions without return, empty functions and recursion are normalized by normalize_basic (must not panic); invariants: unique ids, original entry block first, all targets exist and intraprocedural ones lie in the same function, non-returning calls return to the caller's artificial sink, CFG construction succeeds and equals the specification. Floors on each irregularity kind.",
@@ -82,7 +82,7 @@ CHECKS = {
          "DESIGN.md §3 C20"),
  "C25": ("history-based testing with real threads: tape-decoded message scripts and seeded yields/sleeps; oracle = history model built from happens-before facts the harness observed itself",
          "1..4 sender threads with scripts of logs (with/without location) and warnings, a subset joined before collect(); every message whose send completed before collection must be returned, address-less logs keep per-thread order, per address exactly the last warning (recorded order in sequential mode, some thread's last in free-running mode) is kept, nothing fabricated or duplicated. Schedules are sampled (OS scheduler), not enumerated.",
-         "Trusted: the history model; interleavings inside crossbeam-channel are not controlled (no loom/shuttle build of the channel available). Details: notes/C25.md.",
+         "Trusted: the history model; interleavings inside crossbeam-channel are not controlled (no loom/shuttle build of the channel available). Further sections: identical messages (count/sequence oracle) and volume histories of 70 000-140 000 messages. Details: notes/C25.md.",
          "DESIGN.md §3 C25"),
  "C02": ("exhaustive enumeration over 1-byte interval universes (members enumerated completely) + boundary grids and proptest tapes for 2/4/8/16-byte intervals; oracle = own membership predicate on the serialized result + refsem concrete semantics",
          "For every operation the value analysis evaluates (all integer BinOps, UnOps, casts, subpiece, and the public add/sub/signed_mul/shift_left) and abstract inputs with widening hints/delays: every concrete result of members of the inputs must be a member of the abstract result (all member pairs when small, else endpoints/neighbours/samples), the result width must be right, and the result must be well-formed (start <= end, end on the stride, stride 0 iff singleton).",
@@ -102,7 +102,7 @@ CHECKS = {
          "DESIGN.md §3 C22"),
  "C23": ("metamorphic testing: the same command line executed repeatedly in fresh processes (fresh hash seeds) on generated inputs biased to hash-order-sensitive shapes; oracle = byte equality of stdout",
          "Inputs with several non-entry blocks shared between functions, several sinks per source and many extern symbols are analysed k times (6 quick / 14 thorough) with all checks, JSON and plain output; all outputs must be byte-identical. Hash seeds cannot be chosen, only re-drawn: a dependence showing with probability p per run is missed with probability (1-p)^(k-1) per input.",
-         "Trusted: nothing beyond process isolation; schedules/hash seeds are sampled, not controlled. Details: notes/C23.md.",
+         "Trusted: nothing beyond process isolation; schedules/hash seeds are sampled, not controlled. Trigger shapes that make hash-order dependence visible in the warnings: sinks on both sides of a branch, expressions deeper than the propagation limit, allocation wrapper with several call sites. Details: notes/C23.md.",
          "DESIGN.md §3 C23"),
 }
 
